@@ -102,30 +102,49 @@ Section Table.
   Ltac shapes l :=
     destruct l as [|[?|?] [|[?|?] [|[?|?] [|[?|?] ?]]]]; try reflexivity.
 
+  (* one case per operator present in the table, in the order of [op]; inside a
+     case nothing depends on which of Sugar's spellings the table uses *)
+  Ltac unf := unfold eval_node, sugar_apply, eval_iop, eval_bop; simpl.
+  Ltac generic := intros vs Ha; unf; reflexivity.
+
   Lemma opname_agrees : forall o n, opname o = Some n ->
     good_name n /\
     forall vs, arity_ok o (List.length vs) = true -> sugar_apply gsem n vs = eval_node gsem o vs.
   Proof.
     intros o n H.
     destruct o; vm_compute in H; try discriminate; injection H as <-;
-      (split; [split; [split; [vm_compute; reflexivity | discriminate] | repeat split; vm_compute; reflexivity] |]);
-      intros vs Ha; unfold eval_node, sugar_apply, eval_iop, eval_bop; simpl;
-      try reflexivity.
+      (split; [split; [split; [vm_compute; reflexivity | discriminate] | repeat split; vm_compute; reflexivity] |]).
     - (* NEG *)
-      destruct vs as [|v [|? ?]]; try discriminate. simpl.
+      intros vs Ha. unf. destruct vs as [|v [|? ?]]; try discriminate. simpl.
       destruct v as [[?|?]|]; reflexivity.
     - (* ADD *)
-      destruct vs as [|v vs]; try discriminate.
+      intros vs Ha. unf. destruct vs as [|v vs]; try discriminate.
       destruct (all_some (v :: vs)) as [l|] eqn:E; [|reflexivity].
       pose proof (all_some_length _ _ E) as Hl. destruct l as [|x l]; [discriminate|].
       unfold sum_ints. destruct (as_ints (x :: l)); reflexivity.
     - (* SUB *)
-      destruct vs as [|v [|w vs]]; try discriminate.
+      intros vs Ha. unf. destruct vs as [|v [|w vs]]; try discriminate.
       destruct (all_some (v :: w :: vs)) as [l|] eqn:E; [|reflexivity].
       pose proof (all_some_length _ _ E) as Hl. destruct l as [|x [|y l]]; try discriminate.
       unfold sum_ints. destruct x as [?|a]; [reflexivity|].
       simpl as_ints. destruct y as [?|b]; [reflexivity|].
       destruct (as_ints l); reflexivity.
+    - (* EQ *) generic.
+    - (* NE *) generic.
+    - (* LE *) generic.
+    - (* LT *) generic.
+    - (* GE *) generic.
+    - (* GT *) generic.
+    - (* NOT *) generic.
+    - (* AND *) generic.
+    - (* OR *) generic.
+    - (* IFF *) generic.
+    - (* XOR *) generic.
+    - (* IMP *) generic.
+    - (* IF *) generic.
+    - (* ALLDIFF *) generic.
+    - (* G_AVC *) generic.
+    - (* G_DIV *) generic.
   Qed.
 
   (* every operator that reaches the table lookup has a name *)
@@ -339,9 +358,13 @@ Section Denote.
         repeat constructor; auto using okarg_t, okarg_f.
   Qed.
 
-  (* a one-operand SUB is printed as Sugar's negation: outside [wts] for a reason *)
-  Lemma sub1_misprinted : forall en,
+  (* as long as Op.SUB is spelled "-", a one-operand SUB is printed as Sugar's
+     negation: outside [wts] for a reason *)
+  Lemma sub1_misprinted : opname SUB = Some "-" -> forall en,
     exists s x, print_expr (INode SUB [PyInt 1]) = Ok s /\ sx_parse s = Some x /\
       sugar_sem gsem (name_env en) x = Some (VI (-1)) /\ eval gsem en (INode SUB [PyInt 1]) = Some (VI 1).
-  Proof. intros en. eexists _, _. repeat split; vm_compute; reflexivity. Qed.
+  Proof.
+    intros Hn en. rewrite (print_inode SUB [PyInt 1] "-") by (auto; discriminate).
+    eexists _, _. repeat split; vm_compute; reflexivity.
+  Qed.
 End Denote.
